@@ -32,26 +32,18 @@ Inductive lusage := UReturned | ULocal | ULoop.
 Definition simple_names (s : gstmt) : list string :=
   match s with SDefine x _ => [x] | SVar x _ _ => [x] | _ => [] end.
 
-Fixpoint names_block (fuel : nat) (b : lblock) : list string :=
-  match fuel with
-  | O => []
-  | S f =>
-      match b with
-      | LNil => []
-      | LCons s rest => (names_stmt f s ++ names_block f rest)%list
-      end
+Fixpoint names_block (b : lblock) : list string :=
+  match b with
+  | LNil => []
+  | LCons s rest => (names_stmt s ++ names_block rest)%list
   end
-with names_stmt (fuel : nat) (s : lstmt) : list string :=
-  match fuel with
-  | O => []
-  | S f =>
-      match s with
-      | LSimple g => simple_names g
-      | LIf _ th el => (names_block f th ++ match el with Some e => names_block f e | None => [] end)%list
-      | LFor init _ _ body => (match init with Some (i, _) => [i] | None => [] end ++ names_block f body)%list
-      | LBlock b => names_block f b
-      | _ => []
-      end
+with names_stmt (s : lstmt) : list string :=
+  match s with
+  | LSimple g => simple_names g
+  | LIf _ th el => (names_block th ++ match el with Some e => names_block e | None => [] end)%list
+  | LFor init _ _ body => (match init with Some (i, _) => [i] | None => [] end ++ names_block body)%list
+  | LBlock b => names_block b
+  | _ => []
   end.
 
 Fixpoint lsize (b : lblock) : nat :=
@@ -70,7 +62,7 @@ with lssize (s : lstmt) : nat :=
 
 (* scopedStmtShadows: the statement declares a name that hides a visible local *)
 Definition shadows (G : tenv) (s : lstmt) : bool :=
-  existsb (fun x => match tlookup x G with Some _ => true | None => false end) (names_stmt (S (lssize s)) s).
+  existsb (fun x => match tlookup x G with Some _ => true | None => false end) (names_stmt s).
 
 (* ---------------------------------------------------------------- translator *)
 Definition ContinueE : expr := Val (LitV (LitBool true)).
